@@ -22,10 +22,6 @@ inductive Defect where
   | measureAllLen
   /-- a controlled gate whose control lies between (or on) its targets: LaTeX cannot draw it -/
   | ctrlBetweenTargets
-  /-- `reset_all` on a circuit without qubits (LaTeX: `nr_qbits - 1`) -/
-  | resetAllNoQubits
-  /-- `barrier(&[])`: LaTeX takes the first element of the sorted list -/
-  | emptyBarrier
   /-- a conditional gate controlled by a classical bit with index ≥ `nr_qbits` (c-QASM names only
   `nr_qbits` classical bits) -/
   | condControlGeNq
@@ -38,7 +34,7 @@ deriving DecidableEq, Repr
 def Defect.tag : Defect → String
   | .arity => "arity" | .dupQubits => "dup-qubits" | .cbitGe64 => "cbit-ge-64" | .controlsGt64 => "controls-gt-64"
   | .measureAllLen => "measure-all-len" | .ctrlBetweenTargets => "ctrl-between-targets"
-  | .resetAllNoQubits => "resetall-no-qubits" | .emptyBarrier => "empty-barrier" | .condControlGeNq => "cond-control-ge-nq"
+  | .condControlGeNq => "cond-control-ge-nq"
   | .badComposite => "bad-composite"
 
 variable {P : Type}
@@ -100,16 +96,16 @@ def opDefects (nq : Nat) : COp P → List Defect
   | .measure _ c _ | .peek _ c _ => cbitsDefects [c]
   | .measureAll cbits _ | .peekAll cbits _ =>
     (if cbits.length ≠ nq then [.measureAllLen] else []) ++ cbitsDefects cbits
-  | .resetAll => if nq = 0 then [.resetAllNoQubits] else []
-  | .barrier qbits => if qbits.isEmpty then [.emptyBarrier] else []
-  | .reset _ => []
+  -- `reset_all` on a circuit without qubits and `barrier(&[])` used to panic in LaTeX (findings
+  -- C13-resetall-zero-qubits-panic, C18-latex-empty-barrier-panic: fixed); they are well-formed
+  | .resetAll | .barrier _ | .reset _ => []
 
 /-- which defects matter to which consumer -/
 def Defect.exec : Defect → Bool
-  | .ctrlBetweenTargets | .resetAllNoQubits | .emptyBarrier | .condControlGeNq => false
+  | .ctrlBetweenTargets | .condControlGeNq => false
   | _ => true
 def Defect.latex : Defect → Bool
-  | .dupQubits | .controlsGt64 | .ctrlBetweenTargets | .resetAllNoQubits | .emptyBarrier | .badComposite => true
+  | .dupQubits | .controlsGt64 | .ctrlBetweenTargets | .badComposite => true
   | _ => false
 def Defect.openQasm : Defect → Bool
   | .arity | .controlsGt64 | .measureAllLen | .badComposite => true
@@ -126,8 +122,8 @@ def ExecWF (c : Circ P) (shots : Nat) : Bool :=
   decide (1 ≤ shots) && decide (c.nq < 64) && c.ops.all fun op => (opDefects c.nq op).all fun d => !d.exec
 
 /-- **`WellFormed`**: arity matches, operands distinct, `measure_all` lists exactly `nr_qbits` bits,
-classical bits < 64, at most 64 control bits, shots ≥ 1, drawable (controls outside their targets,
-`reset_all` only with qubits, no empty barrier), c-QASM-nameable control bits, well-formed composite bodies -/
+classical bits < 64, at most 64 control bits, shots ≥ 1, drawable (controls outside their targets),
+c-QASM-nameable control bits, well-formed composite bodies -/
 def WellFormed (c : Circ P) (shots : Nat) : Bool :=
   decide (1 ≤ shots) && decide (c.nq < 64) && c.ops.all fun op => (opDefects c.nq op).isEmpty
 
